@@ -27,7 +27,19 @@ def module_descs(draw, with_apps=True, max_depth=3, sym_pool=('a', 'b', 'c', 'A'
 
     def mk(depth):
         name = 'm%d' % counter[0]; counter[0] += 1
-        axioms = [gens.sugared_to_json(draw_axiom(draw, cfg)) for _ in range(draw(st.integers(0, 3)))]
+        raw = [draw_axiom(draw, cfg) for _ in range(draw(st.integers(0, 3)))]
+        if raw and draw(st.integers(0, 2)) == 0:
+            # a twin of one axiom: the same pattern written without notation (equal: declared once), or the same shape with a
+            # side condition added to a metavariable (a different axiom that prints alike: both must be published)
+            _, _, defs_ = H.pool()
+            t = raw[draw(st.integers(0, len(raw) - 1))]
+            if draw(st.booleans()):
+                raw.insert(draw(st.integers(0, len(raw))), gens.expand_sugared(t, defs_))
+            else:
+                tw = _constrain_first_metavar(gens.expand_sugared(t, defs_), draw(st.sampled_from(cfg.ids)))
+                if tw is not None and R.well_formed(tw):
+                    raw.insert(draw(st.integers(0, len(raw))), tw)
+        axioms = [gens.sugared_to_json(a) for a in raw]
         if axioms and draw(st.integers(0, 3)) == 0:
             axioms.append(axioms[draw(st.integers(0, len(axioms) - 1))])  # literal duplicate in the constructor list
         imports = []
@@ -38,7 +50,8 @@ def module_descs(draw, with_apps=True, max_depth=3, sym_pool=('a', 'b', 'c', 'A'
                 else:
                     imports.append(mk(depth + 1))
         built.append(name)
-        return {'name': name, 'axioms': axioms, 'imports': imports}
+        # how the axioms reach the module: constructor list, add_axiom one by one, add_axioms in one batch, or half and half
+        return {'name': name, 'axioms': axioms, 'imports': imports, 'via': draw(st.sampled_from(['ctor', 'ctor', 'add', 'batch', 'mixed']))}
 
     root = mk(1)
     # modules can be assembled bottom-up (a module imports its dependencies before it is itself imported, as the shipped
@@ -146,6 +159,20 @@ def module_descs(draw, with_apps=True, max_depth=3, sym_pool=('a', 'b', 'c', 'A'
     return root
 
 
+def _constrain_first_metavar(t, x):
+    """t with e_fresh x added to its first unconstrained metavariable node (all nodes of that id), or None"""
+    nodes = [nd for nd in R.metavar_nodes(t) if not any(nd[2:7])]
+    if not nodes: return None
+    target = sorted(nodes)[0]
+    def go(q):
+        if q[0] == 'm': return R.MV(q[1], (x,), (), (), ()) if q[1] == target[1] and not any(q[2:7]) else q
+        if q[0] in ('e', 's', 'y'): return q
+        if q[0] in ('i', 'a'): return (q[0], go(q[1]), go(q[2]))
+        if q[0] in ('E', 'M'): return (q[0], q[1], go(q[2]))
+        return (q[0], q[1], go(q[2]), go(q[3]))
+    return go(t)
+
+
 class Built:
     def __init__(self):
         self.by_name = {}
@@ -169,8 +196,21 @@ def build_module(desc):
         if 'ref' in d:
             return
         axioms = [gens.sugared_from_json(a, by_label) for a in d['axioms']]
-        m = ProofExp(axioms=[gens.build_repo(a) for a in axioms])
+        rp = [gens.build_repo(a) for a in axioms]
+        via = d.get('via', 'ctor')
+        if via == 'ctor':
+            m = ProofExp(axioms=rp)
+        elif via == 'add':
+            m = ProofExp()
+            for a in rp: m.add_axiom(a)
+        elif via == 'batch':
+            m = ProofExp()
+            m.add_axioms(list(rp))
+        else:
+            m = ProofExp(axioms=rp[: len(rp) // 2])
+            m.add_axioms(rp[len(rp) // 2:])
         m._verif_axioms = axioms
+        m._verif_extra = []
         m._verif_subs = []
         built.by_name[d['name']] = m
         for im in d['imports']:
@@ -202,6 +242,7 @@ def build_module(desc):
             prop = root.import_module(Propositional())
         root._verif_subs.append(prop)
         prop._verif_axioms = None
+    n_own = len(root._axioms)     # axioms added from here on (premises of lemma applications, funcsubst hypotheses) are extras
     claims, thunks = [], []
     subst_lib = None
     it = iter(apps)
@@ -222,7 +263,7 @@ def build_module(desc):
                 th = prop.prop1_inst(v, P.MetaVar(1)) if c['k'] == 0 else prop.prop1_inst(P.MetaVar(0), v)
         elif c['kind'] == 'axiom':
             m = built.by_name[c['module']]
-            pat = m._axioms[c['index']]
+            pat = gens.build_repo(m._verif_axioms[c['index']])   # the declared axiom (the module may hold an equal object)
             th = m.load_axiom(pat)
         elif c['kind'] == 'app':
             th = next(it).build(root, prop, taut)
@@ -268,13 +309,20 @@ def build_module(desc):
         claims.append(stated); thunks.append(th)
     root._claims = claims
     root._proof_expressions = thunks
+    root._verif_extra = list(root._axioms[n_own:])
 
     # expected gamma order, as documented: submodules first (depth first, in import order), then own axioms
     def order(m, acc):
         for sub in getattr(m, '_verif_subs', []):
             order(sub, acc)
-        for a in m._axioms:
-            acc.append(R.from_repo(a))
+        decl = getattr(m, '_verif_axioms', None)
+        if decl is not None:
+            # what the description declares (not what the module reports about itself); compared up to duplicates
+            for a in decl: acc.append(gens.expand_sugared(a, defs))
+            for a in getattr(m, '_verif_extra', []): acc.append(R.from_repo(a))
+        else:
+            for a in m._axioms:
+                acc.append(R.from_repo(a))
         return acc
 
     built.gamma_order = order(root, [])
